@@ -45,6 +45,15 @@ def main(tier, which='C07'):
                 m = re.search(r'expression: (.*?)(\n| \||$)', what)
                 key = ('assertion:' + re.sub(r'[^A-Za-z0-9_>!=<.()-]+', '', m.group(1))[:60]) if m else 'exception:' + what[:40]
             vd.violation(key, '%s %s: %s' % (name, what[:160], json.dumps(brief)[:700]), brief)
+    if which == 'C07':
+        # design level: the pair-resolution loop of makeFeasible() terminates (liveness under weak fairness); the model of the code before
+        # the repair 6e1feea is run too, to show that the model tells the two apart (a stuck pair was offered for ever: F31)
+        rl = V.tlc(os.path.join(V.SPEC, 'cola', 'NonOverlapLoop.tla'), os.path.join(V.SPEC, 'cola', 'NonOverlapLoop.cfg'), timeout=600, workers=4, deadlock=True)
+        ev.add_tlc('design: NonOverlapLoop, makeFeasible resolves or gives up every pair (3 pairs, every mix of stuck/separable), Termination', rl)
+        if not rl.finished or rl.violated or 'Temporal property' in rl.out and 'violated' in rl.out:
+            vd.violation('design:makeFeasible-pair-loop-does-not-terminate', 'NonOverlapLoop.tla (FIX = TRUE) violates Termination', {'tlc_tail': rl.out[-3000:]})
+        rb = V.tlc(os.path.join(V.SPEC, 'cola', 'NonOverlapLoop.tla'), os.path.join(V.SPEC, 'cola', 'NonOverlapLoop_before.cfg'), timeout=600, workers=4, deadlock=True)
+        ev.cov['model_of_the_code_before_fix_6e1feea_violates_termination'] = 'Temporal property Termination was violated' in rb.out
     ev.cov['evaluations'] = len(cases)
     ev.cov['distinct_nontrivial'] = nontriv
     ev.cov['runs_with_reported_constraints'] = reported
